@@ -31,10 +31,16 @@ Lists == OrderedSublists({"M1", "M2", "M3"})
 
 ASSUME JsonSerialize("sasl_pool.json", [
   calpha   |-> SetToSeq(ClientAlphabet),
+  cshaped  |-> SetToSeq(ShapedClient),
+  sshaped  |-> SetToSeq(ShapedServer),
+  shapes   |-> SetToSeq({[p |-> q, c |-> PClass(q)] : q \in Shapes}),
   salpha   |-> SetToSeq(ServerAlphabetFor({"M1", "M2", "M3", Unk, ""})),
   cscripts |-> SetToSeq(ClientScripts(3)),
   sscripts_quick |-> SetToSeq(ServerScriptsQuick(3)),
   sscripts |-> SetToSeq(ServerScripts(3)),
+  \* the payload-shape trees: mechanisms that complete (after 0, 1, 2 further rounds)
+  cscripts_shape |-> SetToSeq({s \in ClientScripts(3) : s[Len(s)] = D}),
+  sscripts_shape |-> SetToSeq({s \in ServerScriptsQuick(3) : s[Len(s)] = DY}),
   local    |-> SetToSeq(Lists \ {<<>>}),
   adv      |-> SetToSeq(OrderedSublists({"M1", "M2", "M3", Unk})) ])
 
